@@ -172,13 +172,13 @@ func init() {
 		ID:          "C13",
 		Explanation: "RQ: for every readRune call in a protoLex method, assuming the returned rune is a newline, every path feasible under that assumption (branch conditions over the rune, constants and strings.ContainsRune are evaluated; others explored both ways) passes maybeNewLine(rune) or un-reads the rune (with the size of the same read) or is the read-failed path, before the next readRune or any return: every consumed newline reaches FileInfo's line table.",
 		NotDecided:  "column arithmetic (tab stops, multi-byte runes) and span ordering",
-		Rules:       []func(*World){rqNewlines, rq9ColumnArithmetic},
+		Rules:       []func(*World){rqNewlines, rq9ColumnArithmetic, rq11ReaderPositionOwner},
 	})
 	register(&Property{
 		ID:          "C12",
 		Explanation: "RQ (shared with C13): a position computed after an unregistered newline names a line/column that does not exist. RQ2: parser.Parse returns a nil AST only on the reader-error path, otherwise the returned AST is non-nil on every path (nil-check fallback dominates) and the error is exactly handler.Error(). RQ3: positions in the lexer are computed from reader offsets, never from len() of text re-encoded from runes (an invalid UTF-8 byte re-encodes to 3 bytes). RQ4: every AST field the error-tolerant grammar may leave nil (constructor parameters that receive a literal nil in the compiled actions, mapped to struct fields) is dereferenced in the AST→descriptor conversion only under a dominating nil test (including && / || short-circuit guards).",
 		NotDecided:  "panic-freedom of the generated parser and the AST constructors on arbitrary bytes; that converting the AST to a descriptor never panics",
-		Rules:       []func(*World){rqNewlines, rqParseShape, rq3ByteDistances, rq4NilableFields, rq5NilableGrammarValues, rq6TypedNilAccessors, rq7CtorNilContract, rq8NodeInfoGuards, rq10ConstIndexGuards},
+		Rules:       []func(*World){rqNewlines, rqParseShape, rq3ByteDistances, rq4NilableFields, rq5NilableGrammarValues, rq6TypedNilAccessors, rq7CtorNilContract, rq8NodeInfoGuards, rq10ConstIndexGuards, rq11ReaderPositionOwner},
 	})
 	register(&Property{
 		ID:          "C14",
